@@ -29,6 +29,8 @@ Oracle after every event (invariant): for every (base, off, width) of the probe 
   * `@w[base+off] in symbols` is true iff every (wrapped) byte of the region is in the model; contains_partial iff some is;
 and in the export event: the exported memory items are pairwise disjoint and cover exactly the model's bytes.
 """
+import hashlib
+
 from mc import bfs
 
 PROP = "C13"
@@ -494,7 +496,8 @@ def canon(st):
             impl.append((b, off, idx, str(e)))
     impl.sort()
     # limit - nev: states of seeds with different remaining depth budgets are not merged (each is expanded to its own bound)
-    return (st.asz, st.primary, st.more, st.limit - st.nev, tuple(sorted(st.model.items())), tuple(impl))
+    key = (st.asz, st.primary, st.more, st.limit - st.nev, tuple(sorted(st.model.items())), tuple(impl))
+    return hashlib.sha1(repr(key).encode()).hexdigest()       # short, deterministic handle (keys travel between processes)
 
 
 def outcome(st, ev):
